@@ -56,6 +56,7 @@ inductive Err where
   | variant        -- serde: variant index out of range (bincode DecodeError::OtherString)
   | badbool        -- bincode DecodeError::InvalidBooleanValue
   | version        -- import_snapshot: "unsupported snapshot version"
+  | limit          -- bincode DecodeError::LimitExceeded (`with_limit::<N>()`: byte budget used up)
   deriving DecidableEq, Repr
 
 /-- Outcome of running a decoder. `panic` = unwinding panic ("capacity overflow"), `abort` =
@@ -377,7 +378,7 @@ end Old
 
 end Spill
 
-/-! ## bincode 2 (`config::standard()`: little endian, variable-length integers, no limit)
+/-! ## bincode 2 (`config::standard()`: little endian, variable-length integers; no limit except in `import_snapshot`)
 
 The format of the derived `Serialize`/`Deserialize` of `Value` through `bincode::serde`:
 enum variant index as `u32` varint, `bool` one byte, `i64` zig-zag varint, `f64`/`f32` raw
@@ -452,11 +453,6 @@ def decStr (bs : List UInt8) : Res (List UInt8 × List UInt8) :=
   (readVarint 8 bs).bind fun p => (readN p.1 p.2).bind fun q =>
     if validUtf8 q.1 then .ok q else .err .utf8
 
-/-- owned `String` (`Vec<u8>::decode`): `vec![0u8; len]` *before* the bytes are read. -/
-def decString (bs : List UInt8) : Res (List UInt8 × List UInt8) :=
-  (readVarint 8 bs).bind fun p => (alloc p.1 1).bind fun _ => (readN p.1 p.2).bind fun q =>
-    if validUtf8 q.1 then .ok q else .err .utf8
-
 def decU8s : Nat → List UInt8 → Res (List UInt8 × List UInt8)
   | 0, bs => .ok ([], bs)
   | n + 1, bs => (readU8 bs).bind fun p => (decU8s n p.2).bind fun q => .ok (p.1 :: q.1, q.2)
@@ -491,7 +487,151 @@ def decV : Nat → Spill.Dec
 /-- `bincode::serde::decode_from_slice::<Value>` / `Value::deserialize`: value and unread rest. -/
 def decode (bs : List UInt8) : Res (SVal × List UInt8) := decV (bs.length + 1) bs
 
-/-! ### snapshot (`import_snapshot`) at the level of "which outcome" -/
+/-! ### snapshot (`import_snapshot`) at the level of "which outcome"
+
+Since the repair (`decode_snapshot`, database.rs) the snapshot is decoded with
+`config::standard().with_limit::<N>()`. bincode then keeps a byte counter: every primitive *claims*
+its in-memory width before it is read (`claim_bytes_read`: 1 for `u8`/`bool`, 4 for the `u32` variant
+index and an `f32`, 8 for every `u64`/`usize`/`i64` varint — also when the varint is one byte on the
+wire — and for an `f64`), a borrowed `&str` claims its length, and an owned `String`
+(`Vec<u8>::decode`) claims its announced length with `claim_container_read::<u8>` BEFORE
+`vec![0u8; len]`. A claim that does not fit in what is left of `N` is `DecodeError::LimitExceeded`.
+The model threads the *remaining* budget `b` (`N` minus the claimed bytes; nothing on this path
+unclaims) through every decoder: results are `(value, unread bytes, remaining budget)`.
+The values of properties are checked (tags, lengths, UTF-8, booleans) but not built: the outcome of
+`import_snapshot` does not depend on them. -/
+
+def usizeMax : Nat := 18446744073709551615
+
+/-- `usize::saturating_mul` / `saturating_add` -/
+def satMul (a b : Nat) : Nat := if a * b ≤ usizeMax then a * b else usizeMax
+def satAdd (a b : Nat) : Nat := if a + b ≤ usizeMax then a + b else usizeMax
+
+/-- the smallest size class that holds `need` (the limit is a const generic):
+`2^16, 2^20, 2^24, 2^28, usize::MAX >> 28, usize::MAX >> 20, usize::MAX >> 1`; `usize` is 64 bit. -/
+def sizeClass (need : Nat) : Nat :=
+  if need ≤ 65536 then 65536
+  else if need ≤ 1048576 then 1048576
+  else if need ≤ 16777216 then 16777216
+  else if need ≤ 268435456 then 268435456
+  else if need ≤ 68719476735 then 68719476735
+  else if need ≤ 17592186044415 then 17592186044415
+  else 9223372036854775807
+
+/-- `decode_snapshot`: `need = len.saturating_mul(8).saturating_add(64)` (a decoded item claims at
+most 8 times the bytes it occupies), and the limit is the size class of `need`. -/
+def budget (inputLen : Nat) : Nat := sizeClass (satAdd (satMul inputLen 8) 64)
+
+/-- result of a metered decoder: value, unread bytes, remaining budget. -/
+abbrev LR (α : Type) := Res (α × List UInt8 × Nat)
+
+/-- `claim_bytes_read(n)` against the remaining budget `b` (the `checked_add` overflow of the counter is
+the same error). -/
+def claim (b n : Nat) : Res Nat := if n ≤ b then .ok (b - n) else .err .limit
+
+/-- an integer of in-memory width `w` read as a varint: claim `w`, then read. -/
+def rdVarint (w maxBytes b : Nat) (bs : List UInt8) : LR Nat :=
+  (claim b w).bind fun b1 => (readVarint maxBytes bs).bind fun p => .ok (p.1, p.2, b1)
+
+def rdU8 (b : Nat) (bs : List UInt8) : LR UInt8 :=
+  (claim b 1).bind fun b1 => (readU8 bs).bind fun p => .ok (p.1, p.2, b1)
+
+/-- `n` raw bytes claimed as `n` (`f64`: 8, `f32`: 4, the contents of a borrowed slice). -/
+def rdN (n b : Nat) (bs : List UInt8) : LR (List UInt8) :=
+  (claim b n).bind fun b1 => (readN n bs).bind fun p => .ok (p.1, p.2, b1)
+
+/-- borrowed `&str` under a limit: length (claims 8), claim of the length, slice, UTF-8 check. -/
+def mStr (b : Nat) (bs : List UInt8) : LR Unit :=
+  (rdVarint 8 8 b bs).bind fun p => (rdN p.1 p.2.2 p.2.1).bind fun q =>
+    if validUtf8 q.1 then .ok ((), q.2) else .err .utf8
+
+/-- owned `String` (`Vec<u8>::decode`) under a limit: length, `claim_container_read::<u8>(len)`
+(→ `LimitExceeded` if the announced length exceeds what is left of the budget), and only then
+`vec![0u8; len]`, the read and the UTF-8 check. -/
+def decString (b : Nat) (bs : List UInt8) : LR Unit :=
+  (rdVarint 8 8 b bs).bind fun p => (claim p.2.2 p.1).bind fun b2 => (alloc p.1 1).bind fun _ =>
+    (readN p.1 p.2.1).bind fun q => if validUtf8 q.1 then .ok ((), q.2, b2) else .err .utf8
+
+/-- a metered decoder whose value is dropped: remaining budget → bytes → outcome. -/
+abbrev Skip := Nat → List UInt8 → LR Unit
+
+/-- `n` elements of a serde sequence, one after the other (serde's `Vec` visitor reserves at most
+1 MiB for the announced count: no allocation to model). -/
+def skipN (one : Skip) : Nat → Skip
+  | 0, b, bs => .ok ((), bs, b)
+  | n + 1, b, bs => (one b bs).bind fun p => skipN one n p.2.2 p.2.1
+
+def mU8 : Skip := fun b bs => (rdU8 b bs).bind fun p => .ok ((), p.2)
+def mF32 : Skip := fun b bs => (rdN 4 b bs).bind fun p => .ok ((), p.2)
+def mEntry (dec : Skip) : Skip := fun b bs => (mStr b bs).bind fun k => dec k.2.2 k.2.1
+
+def mBool (b : Nat) (r : List UInt8) : LR Unit :=
+  (rdU8 b r).bind fun p => if p.1 = 0 ∨ p.1 = 1 then .ok ((), p.2) else .err .badbool
+
+/-- `decBody` with the claims. -/
+def mBody (dec : Skip) (idx b : Nat) (r : List UInt8) : LR Unit :=
+  if idx = 0 then .ok ((), r, b)
+  else if idx = 1 then mBool b r
+  else if idx = 2 then (rdVarint 8 8 b r).bind fun p => .ok ((), p.2)
+  else if idx = 3 then (rdN 8 b r).bind fun p => .ok ((), p.2)
+  else if idx = 4 then mStr b r
+  else if idx = 5 then (rdVarint 8 8 b r).bind fun p => skipN mU8 p.1 p.2.2 p.2.1
+  else if idx = 6 then (rdVarint 8 8 b r).bind fun p => .ok ((), p.2)
+  else if idx = 7 then (rdVarint 8 8 b r).bind fun p => skipN dec p.1 p.2.2 p.2.1
+  else if idx = 8 then (rdVarint 8 8 b r).bind fun p => skipN (mEntry dec) p.1 p.2.2 p.2.1
+  else if idx = 9 then (rdVarint 8 8 b r).bind fun p => skipN mF32 p.1 p.2.2 p.2.1
+  else .err .variant
+
+/-- `decV` with the claims (the variant index is a `u32`: claims 4); fuel as in `decV`. -/
+def mV : Nat → Skip
+  | 0, _, _ => .fuel
+  | f + 1, b, bs => (rdVarint 4 4 b bs).bind fun p => mBody (mV f) p.1 p.2.2 p.2.1
+
+/-- one `(String, Value)` property. -/
+def mProp (f : Nat) : Skip := fun b bs => (decString b bs).bind fun p => mV f p.2.2 p.2.1
+
+def decStrings : Nat → Skip := skipN decString
+
+def decProps (f : Nat) : Nat → Skip := skipN (mProp f)
+
+/-- `Vec<SnapshotNode>`: ids of the nodes read. -/
+def decNodes (f : Nat) : Nat → Nat → List UInt8 → LR (List Nat)
+  | 0, b, bs => .ok ([], bs, b)
+  | n + 1, b, bs =>
+    (rdVarint 8 8 b bs).bind fun id => (rdVarint 8 8 id.2.2 id.2.1).bind fun nl =>
+      (decStrings nl.1 nl.2.2 nl.2.1).bind fun ls => (rdVarint 8 8 ls.2.2 ls.2.1).bind fun np =>
+        (decProps f np.1 np.2.2 np.2.1).bind fun ps =>
+          (decNodes f n ps.2.2 ps.2.1).bind fun q => .ok (id.1 :: q.1, q.2)
+
+def decEdges (f : Nat) : Nat → Nat → List UInt8 → LR (List Nat)
+  | 0, b, bs => .ok ([], bs, b)
+  | n + 1, b, bs =>
+    (rdVarint 8 8 b bs).bind fun id => (rdVarint 8 8 id.2.2 id.2.1).bind fun src =>
+      (rdVarint 8 8 src.2.2 src.2.1).bind fun dst => (decString dst.2.2 dst.2.1).bind fun ty =>
+        (rdVarint 8 8 ty.2.2 ty.2.1).bind fun np => (decProps f np.1 np.2.2 np.2.1).bind fun ps =>
+          (decEdges f n ps.2.2 ps.2.1).bind fun q => .ok (id.1 :: q.1, q.2)
+
+def dedupCount (xs : List Nat) : Nat := (xs.foldl (fun acc x => if acc.contains x then acc else x :: acc) []).length
+
+/-- `import_snapshot`: decode within the budget, version check, rebuild. Result: (distinct node ids,
+distinct edge ids). (The id counters are bumped with `saturating_add` since ce64762: an id of `u64::MAX`
+is accepted.) -/
+def importSnapshot (bs : List UInt8) : Res (Nat × Nat) :=
+  let f := bs.length + 1
+  (rdU8 (budget bs.length) bs).bind fun ver => (rdVarint 8 8 ver.2.2 ver.2.1).bind fun nn =>
+    (decNodes f nn.1 nn.2.2 nn.2.1).bind fun ns => (rdVarint 8 8 ns.2.2 ns.2.1).bind fun ne =>
+      (decEdges f ne.1 ne.2.2 ne.2.1).bind fun es =>
+        if ver.1 ≠ 1 then .err .version
+        else .ok (dedupCount ns.1, dedupCount es.1)
+
+/-! the snapshot decoder before the repair: `config::standard()` without a limit, nothing is claimed,
+the owned `String` allocates its announced length unchecked (regression witnesses in Props/C16Ser.lean) -/
+namespace Old
+
+/-- owned `String` (`Vec<u8>::decode`): `vec![0u8; len]` *before* the bytes are read. -/
+def decString (bs : List UInt8) : Res (List UInt8 × List UInt8) :=
+  (readVarint 8 bs).bind fun p => (alloc p.1 1).bind fun _ => (readN p.1 p.2).bind fun q =>
+    if validUtf8 q.1 then .ok q else .err .utf8
 
 def decStrings : Nat → List UInt8 → Res (Unit × List UInt8)
   | 0, bs => .ok ((), bs)
@@ -501,7 +641,6 @@ def decProps (f : Nat) : Nat → List UInt8 → Res (Unit × List UInt8)
   | 0, bs => .ok ((), bs)
   | n + 1, bs => (decString bs).bind fun p => (decV f p.2).bind fun q => decProps f n q.2
 
-/-- `Vec<SnapshotNode>`: ids of the nodes read. -/
 def decNodes (f : Nat) : Nat → List UInt8 → Res (List Nat × List UInt8)
   | 0, bs => .ok ([], bs)
   | n + 1, bs =>
@@ -516,16 +655,14 @@ def decEdges (f : Nat) : Nat → List UInt8 → Res (List Nat × List UInt8)
       (decString dst.2).bind fun ty => (readVarint 8 ty.2).bind fun np => (decProps f np.1 np.2).bind fun ps =>
         (decEdges f n ps.2).bind fun q => .ok (id.1 :: q.1, q.2)
 
-def dedupCount (xs : List Nat) : Nat := (xs.foldl (fun acc x => if acc.contains x then acc else x :: acc) []).length
-
-/-- `import_snapshot`: decode, version check, rebuild. Result: (distinct node ids, distinct edge ids).
-(The id counters are bumped with `saturating_add` since ce64762: an id of `u64::MAX` is accepted.) -/
 def importSnapshot (bs : List UInt8) : Res (Nat × Nat) :=
   let f := bs.length + 1
   (readU8 bs).bind fun ver => (readVarint 8 ver.2).bind fun nn => (decNodes f nn.1 nn.2).bind fun ns =>
     (readVarint 8 ns.2).bind fun ne => (decEdges f ne.1 ne.2).bind fun es =>
       if ver.1 ≠ 1 then .err .version
       else .ok (dedupCount ns.1, dedupCount es.1)
+
+end Old
 
 end Bin
 
